@@ -28,7 +28,7 @@ int main(int argc, char **argv)
 		const char *op = kv_str(&kv, "op", "add"); ent_seed((uint64_t)kv_int(&kv, "seed", 17));
 		size_t al, bl, cl, kl, pl, ql, p2l, q2l, idl, idbl, ml, sl, ctl, ksl;
 		uint8_t *ab = kv_hex(&kv, "a", &al), *bb = kv_hex(&kv, "b", &bl), *cb = kv_hex(&kv, "c", &cl), *kb = kv_hex(&kv, "k", &kl), *Pb = kv_hex(&kv, "P", &pl), *Qb = kv_hex(&kv, "Q", &ql),
-			*P2b = kv_hex(&kv, "P2", &p2l), *Q2b = kv_hex(&kv, "Q2", &q2l), *id = kv_hex(&kv, "id", &idl), *idb = kv_hex(&kv, "idb", &idbl), *msg = kv_hex(&kv, "msg", &ml), *sigb = kv_hex(&kv, "sig", &sl),
+			*P2b = kv_hex(&kv, "P2", &p2l), *Q2b = kv_hex(&kv, "Q2", &q2l), *id = kv_hex(&kv, "ident", &idl), *idb = kv_hex(&kv, "idb", &idbl), *msg = kv_hex(&kv, "msg", &ml), *sigb = kv_hex(&kv, "sig", &sl),
 			*ctb = kv_hex(&kv, "ct", &ctl), *ksb = kv_hex(&kv, "ks", &ksl);
 		(void)cb; (void)cl;
 		vt_begin("S9"); vt_int("id", kv_int(&kv, "id", 0)); vt_str("op", op);
@@ -123,7 +123,8 @@ int main(int argc, char **argv)
 			if (!bad) {
 				sm9_z256_point_mul(&aP, a, &P); sm9_z256_twist_point_mul(&bQ, b, &Q); sm9_z256_pairing(e1, &bQ, &aP); sm9_z256_pairing(e2, &Q, &P); sm9_z256_modn_mul(ab2, a, b);
 				sm9_z256_fp12_pow(e3, e2, ab2); sm9_z256_fp12_to_bytes(e1, out); vt_hex("lhs", out, 384); sm9_z256_fp12_to_bytes(e3, out); vt_hex("rhs", out, 384); sm9_z256_fp12_to_bytes(e2, out); vt_hex("base", out, 384);
-				sm9_z256_fp12_pow(e3, e2, sm9_z256_order()); sm9_z256_fp12_to_bytes(e3, out); vt_hex("tothen", out, 384);
+				{ sm9_z256_t two = {2, 0, 0, 0}, nm2; sm9_z256_sub(nm2, sm9_z256_order(), two); sm9_z256_fp12_pow(e3, e2, nm2); sm9_z256_fp12_mul(e3, e3, e2); sm9_z256_fp12_mul(e3, e3, e2); /* e^(N-2) e e: the exponent of fp12_pow must stay below N-1 */ }
+				sm9_z256_fp12_to_bytes(e3, out); vt_hex("tothen", out, 384);
 			}
 		} else if (!strcmp(op, "hash1")) {
 			sm9_z256_t h; c = sm9_z256_hash1(h, (char *)id, idl, (uint8_t)kv_int(&kv, "hid", 1)); sm9_z256_to_bytes(h, out); vt_int("c", c); vt_hex("r", out, 32);
